@@ -15,6 +15,7 @@ def stepOf (s : String) : Option StepK :=
   | ["distinct"] => some .distinct | ["aggcount"] => some .aggcount | ["aggterm"] => some .aggterm
   | ["agg2"] => some .agg2
   | ["aggpct"] => some .aggpct
+  | ["aggnone"] => some .aggnone
   | ["limit", k] => k.toNat?.map .limit
   | ["skip", k] => k.toNat?.map .skip
   | ["agghist", k] => k.toNat?.map .agghist
